@@ -105,6 +105,13 @@ pub fn gen_chain(r: &mut Rng, tier: Tier) -> Chain {
         }
         flow = gen_flow(r, &cfg);
     }
+    // now and then claims nested 17 to 40 levels deep (everything hidden at every level): what is selected deep down must
+    // survive every narrowing step
+    if r.chance(1, 14) {
+        let d = r.range(17, 40);
+        flow.issue.claims = gen_deep_claims_with(r, d, now(), 4);
+        flow.issue.strategy = Strategy::All;
+    }
     let d1 = match r.below(3) {
         0 => select_all(&flow.issue.claims),
         _ => {
